@@ -38,6 +38,15 @@ for lay, flay in QUICK + ALL:
                 tiers=("quick", "thorough") if quick else ("thorough",), reach=["end"], time_limit_s=1500,
                 bounds="event layout fixed (b = bridges, c = claim per block), every field value symbolic; observation: GetLastProcessedBlock, "
                        "GetBridges/GetClaims (every sub-range), GetExitRootByIndex, GetRootByLER, GetProof, and the root after one more block"))
+HITN = {0: "a token migrated in neither block", 1: "the token migrated in block 1 (below the reorg)", 2: "the token migrated in block 2 (orphaned with it)"}
+for _hit in (0, 1, 2):
+    for _fork in (0, 1):
+        OBLIGATIONS.append(dict(
+            name="C04.c bridge store, token events: blocks 1-2 with token mappings and legacy-token migrations, block 2 removes %s; reorg from block 2%s: "
+                 "token-mapping and migration listings == store that never saw block 2" % (HITN[_hit], ", new block 2" if _fork else ""),
+            harness=B + "ZZVerif_C04_TokenEvents", params={"HIT": _hit, "FORK": _fork}, tiers=("quick", "thorough"), reach=[] if _hit == 1 else ["end"], time_limit_s=1500,
+            known_finding="C04-1" if _hit == 1 else None,
+            bounds="all field values of the events; restart after the reorg or not"))
 L1 = "github.com/agglayer/aggkit/l1infotreesync."
 
 
